@@ -192,6 +192,35 @@ def main():
         table_info = {"recognised_in_source": sorted(k for k, v in (tabs or {}).items() if v is not None),
                       "unavailable": sorted(k for k, v in (tabs or {}).items() if v is None)}
 
+    # 1a'. scope obligation: the effect summary (regenerated from the source) of every function in the modules this property's
+    # functions live in is clean - no shared writes, no argument writes, nothing opaque, `self` written only by the permitted
+    # mutators. Built apart, like the table modules.
+    scope_thm = f"Psec.Scope.{pid}.scope_clean"
+    scope_mod = f"PsecModel.Lemmas.Scope.{pid}"
+    scope_broken = None
+    has_scope = os.path.exists(os.path.join(core.LEAN_DIR, "PsecModel", "Lemmas", "Scope", pid + ".lean")) and not build_failed
+    if has_scope:
+        import effects
+        try:
+            an = effects.run(core.REPO, os.path.join(core.LEAN_DIR, "PsecModel", "Generated", "Effects.lean"))
+            sok, sout = core.lake_build([scope_mod])
+            if not sok:
+                conc = open(os.path.join(core.LEAN_DIR, "PsecModel", "Conc.lean")).read()
+                permitted = set(re.findall(r'"([^"]+)"', conc[conc.index("def allowedSelfWriters"):conc.index("def allowedModuleWrites")]))
+                roots = re.findall(r'"([^"]+)"', re.search(r"moduleImports (\[[^\]]*\])", open(os.path.join(core.LEAN_DIR, "PsecModel", "Lemmas", "Scope", pid + ".lean")).read()).group(1))
+                mods, todo = set(), list(roots)
+                while todo:
+                    m_ = todo.pop()
+                    if m_ not in mods:
+                        mods.add(m_)
+                        todo += an.imports.get(m_, [])
+                dirty = [f"{q}: " + "; ".join((f.shared + f.arg + f.unknown + ([] if q in permitted else f.selfw))[:3]) for q, f in sorted(an.fns.items())
+                         if q.split(".")[0] in mods and (f.shared or f.arg or f.unknown or (f.selfw and q not in permitted))]
+                scope_broken = (f"the effect summary regenerated from the source is not clean within this property's modules ({', '.join(sorted(mods))}): "
+                                + " | ".join(dirty)[:900] + "; import-time writes: " + ", ".join(w for w in an.module_writes if w.split(":")[0] in mods)[:200])
+        except SyntaxError as e:
+            scope_broken = f"harness/effects.py could not parse the source: {e}"
+
     # 1b. platform assertions: the model's account of the Python built-ins (Py.lean) against this interpreter; independent of
     # /repo, so a failure is an infrastructure error (the trusted base does not fit this Python), never a VIOLATION
     platform_info = None
@@ -219,6 +248,14 @@ def main():
             aud["theorems"].update(aud2["theorems"])
             aud["checker_cmd"] = (aud.get("checker_cmd") or "") + " ; python3 harness/tables.py && " + aud2["checker_cmd"]
         theorems += table_obl
+    if has_scope:
+        if scope_broken:
+            aud["theorems"][scope_thm] = {"ok": False, "axioms": None, "error": scope_broken}
+        else:
+            aud3 = core.audit(pid + "_scope", [scope_thm], [scope_mod])
+            aud["theorems"].update(aud3["theorems"])
+            aud["checker_cmd"] = (aud.get("checker_cmd") or "") + " ; " + aud3["checker_cmd"]
+        theorems.append(scope_thm)
     hits = core.scan_sources()
     discharged = sum(1 for t in theorems if aud["theorems"].get(t, {}).get("ok"))
     for t in theorems:
